@@ -98,7 +98,7 @@ func (g *Gen) mapLookup(st *State, m Val, k Val) Val {
 
 func (g *Gen) mapUpdate(st *State, m, k, v Val) {
 	mt, ok := mapModeled(m.Typ)
-	g.bumpTok(st)
+	g.bumpTokAt(st, &m.Comps[0], true)
 	// length: unknown growth by 0 or 1
 	ln := g.heapGet(st, mapLenKey(m.Typ), arrSort(SInt))
 	oldLen := tSelect(ln, m.Comps[0], SInt)
@@ -121,7 +121,7 @@ func (g *Gen) mapUpdate(st *State, m, k, v Val) {
 }
 
 func (g *Gen) mapDelete(st *State, m, k Val) {
-	g.bumpTok(st)
+	g.bumpTokAt(st, &m.Comps[0], false)
 	ln := g.heapGet(st, mapLenKey(m.Typ), arrSort(SInt))
 	oldLen := tSelect(ln, m.Comps[0], SInt)
 	if _, ok := mapModeled(m.Typ); !ok {
